@@ -682,7 +682,7 @@ func ruleOverlayKey(c *Ctx) {
 		typOK, tagOK := false, false
 		check := func(cd ssa.Value, truth bool) {
 			bo, ok := cd.(*ssa.BinOp)
-			if !ok || bo.Op != token.EQL || !truth {
+			if !ok || !((bo.Op == token.EQL && truth) || (bo.Op == token.NEQ && !truth)) {
 				return
 			}
 			for i, o := range []ssa.Value{bo.X, bo.Y} {
@@ -690,7 +690,7 @@ func ruleOverlayKey(c *Ctx) {
 				if ld, ok := o.(*ssa.UnOp); ok {
 					// the key fields of the very entry whose codec is returned,
 					// compared with what the caller asked for
-					if fa2, ok := ld.X.(*ssa.FieldAddr); ok && fa2.X == fa.X {
+					if fa2, ok := ld.X.(*ssa.FieldAddr); ok && sameEntryAddr(fa2.X, fa.X, 0) {
 						if _, isParam := other.(*ssa.Parameter); !isParam {
 							continue
 						}
@@ -1548,4 +1548,31 @@ func ruleInternSibling(c *Ctx) {
 	c.Oblige("T.intern-sibling", bad == "", in.Pos(), "plenccodec.InternedStringCodec.Read", "the decoded string is the table's entry for the input or a copy of the input",
 		"the only strings an interned field may produce are string(data) itself and the table entry found under it; a string from anywhere else (a precomputed table of short strings, a cache keyed differently) need not equal string(data)"+map[bool]string{true: "", false: "; here: " + bad}[bad == ""], nil)
 	c.Floor("T.intern-sibling", 2)
+}
+
+// sameEntryAddr: two address expressions denote the same struct - the same
+// value, or the same element of the same slice/array (go/ssa recomputes
+// &s[i] at every use).
+func sameEntryAddr(a, b ssa.Value, depth int) bool {
+	if a == b {
+		return true
+	}
+	if depth > 4 {
+		return false
+	}
+	switch x := a.(type) {
+	case *ssa.IndexAddr:
+		if y, ok := b.(*ssa.IndexAddr); ok {
+			return x.Index == y.Index && sameEntryAddr(x.X, y.X, depth+1)
+		}
+	case *ssa.FieldAddr:
+		if y, ok := b.(*ssa.FieldAddr); ok {
+			return x.Field == y.Field && sameEntryAddr(x.X, y.X, depth+1)
+		}
+	case *ssa.UnOp:
+		if y, ok := b.(*ssa.UnOp); ok && x.Op == y.Op {
+			return sameEntryAddr(x.X, y.X, depth+1)
+		}
+	}
+	return false
 }
